@@ -59,7 +59,7 @@ def carr(case, xs):
     same in every carrier, so reference models are unaffected."""
     from . import carriers
     kind = case.get("carrier", "f64")
-    if kind == "f64":
+    if kind == "f64" or not carriers.data_applicable(kind, xs):
         return arr(xs)
     return carriers.data(xs, kind, case.get("junk", 0.0))
 
